@@ -24,22 +24,14 @@ import (
 
 	kitpem "github.com/dapr/kit/crypto/pem"
 	"github.com/dapr/kit/crypto/spiffe"
-	"github.com/dapr/kit/logger"
 
 	"verif/harness/common"
+	"verif/harness/stublog"
 	"verif/simos"
 	"verif/simrt"
 )
 
 const maxInjected = 3 * time.Second
-
-type stubLog struct{ logger.Logger }
-
-func (stubLog) Info(args ...interface{})                  {}
-func (stubLog) Infof(format string, args ...interface{})  {}
-func (stubLog) Debug(args ...interface{})                 {}
-func (stubLog) Debugf(format string, args ...interface{}) {}
-func (stubLog) Errorf(format string, args ...interface{}) {}
 
 var (
 	caKey  *ecdsa.PrivateKey
@@ -254,7 +246,7 @@ func body(s *simrt.Sim, tier string) {
 		is.ok = true
 		return []*x509.Certificate{cert}, nil
 	}
-	sp := spiffe.New(spiffe.Options{Log: stubLog{}, RequestSVIDFn: requestFn, WriteIdentityToFile: target, TrustAnchors: ta})
+	sp := spiffe.New(spiffe.Options{Log: stublog.Log{}, RequestSVIDFn: requestFn, WriteIdentityToFile: target, TrustAnchors: ta})
 	if withFiles {
 		hook = &fsHook{s: s, failAt: -1, check: checkFiles}
 		simos.SetHook(hook)
